@@ -119,14 +119,23 @@ func c03(c *q.Ctx) {
 	}
 
 	// ---- pool dependency graph: edge from every pending producer to its consumer
+	poolGraph(c)
+}
+
+// poolGraph: the pool's dependency graph links every pending transaction to every
+// pending transaction whose outputs or key versions it consumes (shared by C02, C03
+// and C13: the rollback of a pending family and the packing order both walk it).
+func poolGraph(c *q.Ctx) {
+	const txp = "bcs/ledger/xledger/tx::"
 	su := c.Fn(txp + "(*Tx).SortUnconfirmedTx")
-	if su != nil {
-		keep := func(g q.Cond) bool { return !strings.Contains(g.Canon, "more(") && !strings.Contains(g.Canon, "len(") }
-		edge := "append(newmap<TxGraph>[%s],key(newmap<map[string]*Transaction>))"
-		_ = edge
-		c.Effect(su, q.Eff{Spec: "append", Arg: 0, Glob: "newmap<TxGraph>[newmap<map[string]*Transaction>[].TxInputs[].RefTxid]", Req: []q.Cond{{Canon: "has(newmap<map[string]*Transaction>,newmap<map[string]*Transaction>[].TxInputs[].RefTxid)", Sense: true}}, Exact: true, Keep: keep, Why: "a pending transaction is a child of every pending transaction one of its token inputs refers to, with no other condition", Rule: "K4"})
-		c.Effect(su, q.Eff{Spec: "append", Arg: 0, Glob: "newmap<TxGraph>[newmap<map[string]*Transaction>[].TxInputsExt[].RefTxid]", Req: []q.Cond{{Canon: "has(newmap<map[string]*Transaction>,newmap<map[string]*Transaction>[].TxInputsExt[].RefTxid)", Sense: true}}, Exact: true, Keep: keep, Why: "and of every pending transaction one of its key inputs refers to", Rule: "K4"})
-		c.StaysInLoop(su, q.Cond{Canon: "has(newmap<map[string]*Transaction>,newmap<map[string]*Transaction>[].TxInputs[].RefTxid)", Sense: false}, q.Cond{Canon: "(#i < len(newmap<map[string]*Transaction>[].TxInputs))"}, "an input that refers to a confirmed transaction must not hide the later inputs")
-		c.StaysInLoop(su, q.Cond{Canon: "has(newmap<map[string]*Transaction>,newmap<map[string]*Transaction>[].TxInputsExt[].RefTxid)", Sense: false}, q.Cond{Canon: "(#i < len(newmap<map[string]*Transaction>[].TxInputsExt))"}, "a key input that refers to a confirmed transaction must not hide the later inputs")
+	if su == nil {
+		return
+	}
+	keep := func(g q.Cond) bool { return !strings.Contains(g.Canon, "more(") && !strings.Contains(g.Canon, "len(") }
+	m := "newmap<map[string]*Transaction>"
+	for _, f := range []string{"TxInputs", "TxInputsExt"} {
+		c.Effect(su, q.Eff{Spec: "append", Arg: 0, Glob: "newmap<TxGraph>[" + m + "[]." + f + "[].RefTxid]", Req: []q.Cond{{Canon: "has(" + m + "," + m + "[]." + f + "[].RefTxid)", Sense: true}}, Exact: true, Keep: keep, Why: "an edge from every pending producer cited by " + f + " to the consumer, with no other condition", Rule: "K4"})
+		c.Effect(su, q.Eff{Spec: "append", Arg: 1, Glob: "[key(" + m + ")]", Why: "the consumer is the transaction whose inputs are scanned", Rule: "K4"})
+		c.StaysInLoop(su, q.Cond{Canon: "has(" + m + "," + m + "[]." + f + "[].RefTxid)", Sense: false}, q.Cond{Canon: "(#i < len(" + m + "[]." + f + "))"}, "an input citing a confirmed transaction must not hide the later inputs")
 	}
 }
